@@ -5,6 +5,7 @@
 import QEModel.C02
 import QEProofs.Lemmas.C02Gth
 import QEProofs.Lemmas.C02Scatter
+import QEProofs.Lemmas.C02Reach
 namespace QE.C02
 open Finset
 
@@ -62,6 +63,28 @@ theorem class_row_stationary_aux (n : ℕ) (P : M K) (C : List ℕ)
   · have := scatter_sum n C (gthSolve C.length (restrict P C)) hnd hC (fun _ => (1 : K))
     simp only [mul_one] at this
     rw [this, hx1]
+
+theorem adjB_iff (P : M K) (a b : ℕ) : adjB P a b = true ↔ 0 < P.get a b := by
+  unfold adjB
+  simp only [Bool.not_eq_true', decide_eq_false_iff_not, not_le]
+
+/-- **The closedness certificate always holds** for the classes the model computes. -/
+theorem closedB_recClasses (n : ℕ) (P : M K) (C : List ℕ)
+    (h : C ∈ recClasses n (reachMat n (adjB P))) : closedB n P C = true := by
+  obtain ⟨i, hi, _, _, _, hm⟩ := recClasses_sound n (adjB P) C h
+  unfold closedB
+  rw [List.all_eq_true]
+  intro c hc
+  rw [List.all_eq_true]
+  intro j hj
+  have hj := List.mem_range.1 hj
+  have hcn : c < n := Rch_lt n (adjB P) ((hm c).1 hc).1 hi
+  by_cases hjC : j ∈ C
+  · simp [hjC]
+  · simp only [Bool.or_eq_true, decide_eq_true_eq]
+    right
+    by_contra hpos
+    exact hjC (recClasses_closed n (adjB P) C h c j hc ⟨hcn, hj, (adjB_iff P c j).2 (not_le.1 hpos)⟩)
 
 end
 end QE.C02
